@@ -242,6 +242,22 @@ func main() {
 		}
 		b := buf.Bytes()
 		w.Emit(trace.M("ev", "enc", "index", indexJ(ix), "tokens", tokenise(b)))
+		// the same index through the local index store and through a PUT, onto names that hold an earlier (longer or shorter) index
+		if sha512 {
+			if err := lis.StoreIndex("stored.caibx", ix); err == nil {
+				fb, _ := os.ReadFile(filepath.Join(*dir, "stored.caibx"))
+				w.Emit(trace.M("ev", "enc", "index", indexJ(ix), "tokens", tokenise(fb)))
+			}
+			if req, e := http.NewRequest("PUT", srv.URL+"/reput.caibx", bytes.NewReader(b)); e == nil {
+				if resp, e := http.DefaultClient.Do(req); e == nil {
+					resp.Body.Close()
+					if resp.StatusCode == 200 {
+						fb, _ := os.ReadFile(filepath.Join(*dir, "reput.caibx"))
+						w.Emit(trace.M("ev", "enc", "index", indexJ(ix), "tokens", tokenise(fb)))
+					}
+				}
+			}
+		}
 		// the valid file through every reader, and with the other digest configured
 		for _, v := range []string{"reader", "frag", "frag", "file", "http", "put"} {
 			decode(b, sha512, v)
